@@ -4,7 +4,7 @@ import PdfModel.Core.Out
 # Model of `pdf/src/enc.rs` (stream filters) and of the filter-chain plumbing around it
 
 The model describes the code **after** the `fix:` commits of the C05/C16 package (D12–D16, ASCII85
-white-space, LZW code size, predictor 10); the behaviour before each repair is kept as a separate
+white-space, LZW code size, predictor 10, encoders with a predictor); the behaviour before each repair is kept as a separate
 `…Old` definition in `Props/C05.lean` / `Props/C16.lean` together with the checked counter-example.
 
 | Rust item (pdf/src/enc.rs unless noted)                  | model                                     |
@@ -428,8 +428,11 @@ def decode (X : Ext) (data : Bytes) : Filter → Out Bytes
 def encode (X : Ext) (data : Bytes) : Filter → Out Bytes
   | .asciiHex => encodeHex data
   | .ascii85 => encode85 data
-  | .lzw p => if p.earlyChange ≠ 0 then .err else match X.lzwEncode data with | some d => .ok d | none => .err
-  | .flate _ => .ok (X.zlibEncode data)
+  | .lzw p =>
+    if p.earlyChange ≠ 0 then .err
+    else if p.predictor > 1 then .err                 -- a predictor is refused, not ignored
+    else match X.lzwEncode data with | some d => .ok d | none => .err
+  | .flate p => if p.predictor > 1 then .err else .ok (X.zlibEncode data)
   | _ => .err
 
 /-- `for filter in filters { data = decode(&data, filter)?; }` (`Stream::data`, `Storage::decode`) -/
